@@ -159,11 +159,20 @@ func scenarioC02(c *RunCtx) {
 		AllowShipped: true,
 		AllowRead:    true,
 	}
+	// finite non-negative fitness at the limits of float64 (one run in sixteen): whole multiples of the smallest
+	// subnormal, values next to the largest finite number. Opt-in kinds, not part of the other checks' worlds.
+	if t.Chance("extremeFitness", 1, 16) {
+		spec.Landscapes = []int{LandSubnormalUnits, LandNearMax}
+	}
 	var w *World
 	var sched *Sched
 	c.LibSoft("construct", func() { w = NewWorld(t, spec) })
 	if w.ConstructErr != nil {
 		c.Skip("constructor-error")
+	}
+	if w.Land != nil && (w.Land.Kind == LandSubnormalUnits || w.Land.Kind == LandNearMax) {
+		c.PanicContext = " (world [start=" + worldKind(w) + "])"
+		c.Count("probe.fitness_at_float64_limits")
 	}
 	if w.GenelessAtStart > 0 {
 		c.Skip("precondition:geneless-random-genome")
@@ -186,10 +195,10 @@ func scenarioC02(c *RunCtx) {
 		c.Steps++
 		c.Op("epoch %d: %d species before, err=%v", e, nSpeciesBefore, snap.Err)
 		if snap.Err != nil {
-			c.Fail("epoch-error", "world [start=%s] NextEpoch(generation %d) returned error: %v", w.KindName, e, snap.Err)
+			c.Fail("epoch-error", "world [start=%s] NextEpoch(generation %d) returned error: %v", worldKind(w), e, snap.Err)
 		}
 		if inv, d := po.afterEpoch(w.Pop, snap, w.Opts.PopSize); inv != "" {
-			c.Fail(inv, "world [%s] after epoch %d: %s", w.KindName, e, d)
+			c.Fail(inv, "world [%s] after epoch %d: %s", worldKind(w), e, d)
 		}
 		if w.Kind == StartRandomPop {
 			// known finding F9: in worlds of unrelated random genomes a crossover can produce a gene-less child, which
@@ -211,7 +220,7 @@ func scenarioC02(c *RunCtx) {
 			c.Count("probe.checkpoint_restore")
 			c.Op("checkpoint: population written and read back after epoch %d", e)
 			if inv, d := checkPartition(w.Pop, w.Opts.PopSize); inv != "" {
-				c.Fail("restore:"+inv, "world [%s] after the restore that follows epoch %d: %s", w.KindName, e, d)
+				c.Fail("restore:"+inv, "world [%s] after the restore that follows epoch %d: %s", worldKind(w), e, d)
 			}
 			po = newPartitionOracle(w.Pop)
 			continue
@@ -279,4 +288,13 @@ func scenarioC02(c *RunCtx) {
 		c.CountN("sched.yields", sched.Yields)
 		c.State(sched.TraceHash)
 	}
+}
+
+// worldKind names the start kind of the world and, for the fitness landscapes at the limits of float64, the landscape
+// (known findings are keyed on it).
+func worldKind(w *World) string {
+	if w.Land != nil && (w.Land.Kind == LandSubnormalUnits || w.Land.Kind == LandNearMax) {
+		return w.KindName + " fitness=" + w.Land.Name()
+	}
+	return w.KindName
 }
